@@ -517,10 +517,14 @@ class Executor(object):
     def exc_isinstance(self, cls, handler):
         seen = 0
         c = cls
+        # classes of other modules are known by their qualified name ('sqlite3.OperationalError') in `except` clauses and by
+        # their bare name in `raises` declarations of opaque callees: compare the bare names
+        bare = lambda n: n.split('.')[-1] if isinstance(n, str) else n      # noqa
+        qual = {bare(k): k for k in EXC_PARENTS if '.' in k}
         while c is not None and seen < 30:
-            if c == handler:
+            if c == handler or bare(c) == bare(handler):
                 return True
-            c = self.reg.exceptions.get(c, EXC_PARENTS.get(c))
+            c = self.reg.exceptions.get(c, EXC_PARENTS.get(c, EXC_PARENTS.get(qual.get(c))))
             seen += 1
         return False
 
